@@ -1528,7 +1528,6 @@ func (ev *evaluator) runCallee(callee *ssa.Function, fr *evalFrame, call *ssa.Ca
 	return ev.run(callee, fr, call, nil, nil)
 }
 
-
 // localArrayOf: v is a local array written as a literal, or a slice of one ([]T{...} is `new [N]T` sliced whole).
 func localArrayOf(v ssa.Value) (*ssa.Alloc, bool) {
 	if sl, ok := v.(*ssa.Slice); ok && sl.Low == nil && sl.High == nil {
@@ -1659,7 +1658,6 @@ func (ev *evaluator) localMapLookup(fr *evalFrame, mm *ssa.MakeMap, key ssa.Valu
 	}
 	return nil, false, true
 }
-
 
 // ---- local aggregates ----
 //
@@ -1843,7 +1841,6 @@ func (ev *evaluator) setPath(fr *evalFrame, cur interface{}, t types.Type, steps
 	}
 	return nil, false
 }
-
 
 var hasPanicCache = map[*ssa.Function]bool{}
 
